@@ -15,8 +15,10 @@ Inductive case :=
 | mkA (st : pstate) (req : bytes) (target : bytes) (payload : bytes) (obs : list awrite).
 
 Definition bools : list bool := [false; true].
+(* the trees the judge recognises: findings 1 and 6 are repaired in the code (a recurrence is a violation),
+   2, 3 and 4 are open and may be repaired independently *)
 Definition all_flags : list flags :=
-  flat_map (fun a => flat_map (fun b => flat_map (fun c => flat_map (fun d => map (fun e => mkF a b c d e) bools) bools) bools) bools) bools.
+  flat_map (fun b => flat_map (fun c => map (fun d => mkF true b c d true) bools) bools) bools.
 
 (* ---------- adapter layer ---------- *)
 Definition beq_awrite (a b : awrite) : bool :=
@@ -71,11 +73,9 @@ Definition judge (c : case) : verdict :=
              | Some (name, a) =>
                let s := parse_sub name in
                (* the recorded defect that explains the difference: the highest-numbered unrepaired one in whose trigger class the request lies *)
-               if negb (f6 F) && trigger6 st s a then VKnown 6
-               else if negb (f4 F) && trigger4 oracle s a then VKnown 4
+               if negb (f4 F) && trigger4 oracle s a then VKnown 4
                else if negb (f3 F) && trigger3 st s a then VKnown 3
                else if negb (f2 F) && trigger2 st s a then VKnown 2
-               else if negb (f1 F) && trigger1 st s a then VKnown 1
                else VViolation
              end
            end
@@ -85,7 +85,7 @@ Definition judge (c : case) : verdict :=
     | None => VMismatch
     | Some req =>
       if holds_adapter st req target payload obs then VOk
-      else if existsb (fun F => same_writes obs (impl_adapter F st req target payload)) [none_fixed; mkF true false false false false]
+      else if same_writes obs (impl_adapter current st req target payload)
       then VKnown 5 else VViolation
     end
   end.
